@@ -29,7 +29,7 @@ def plan(tier, seed):
     return [{"id": f"{seed}-{i}", "i": i} for i in range(N[tier])]
 
 
-def make_input(r, kind, solid_only=False, with_cpal=False, want_gap=False, minimal=False, flavour=None, many_groups=False):
+def make_input(r, kind, solid_only=False, with_cpal=False, want_gap=False, minimal=False, flavour=None, many_groups=False, force_zero_advance=False):
     """-> (font bytes, description)"""
     from vf.drive import inproc
 
@@ -111,7 +111,7 @@ def make_input(r, kind, solid_only=False, with_cpal=False, want_gap=False, minim
     from vf.checks import c13
 
     npal = r.choice([1, 2, 3])
-    zero_adv = r.random() < 0.35
+    zero_adv = r.random() < 0.35 or force_zero_advance
     asc_seed = r.random()
     if minimal:
         # a colour font whose colour glyphs paint their own outlines and that has no other glyph besides .notdef
@@ -201,7 +201,7 @@ def run_case(case):
     res = {"counters": {}, "maxes": {}, "violations": [], "tags": [kind] + flags}
     c = res["counters"]
     try:
-        data, desc = make_input(r, kind, solid_only=(kind == "picosvg" and colr_version == 0), with_cpal=with_cpal, want_gap=case["i"] % 8 in (0, 3, 5), minimal=kind == "thirdparty" and case["i"] % 16 in (2, 10), flavour={4: "cff", 7: "cff2", 12: "cff2", 15: "cff"}.get(case["i"] % 16), many_groups=case["i"] % 12 in (4, 11))
+        data, desc = make_input(r, kind, solid_only=(kind == "picosvg" and colr_version == 0), with_cpal=with_cpal, want_gap=case["i"] % 8 in (0, 3, 5), minimal=kind == "thirdparty" and case["i"] % 16 in (2, 10), flavour={4: "cff", 7: "cff2", 12: "cff2", 15: "cff"}.get(case["i"] % 16), many_groups=case["i"] % 12 in (4, 11), force_zero_advance=case["i"] % 16 in (6, 14))
         if desc.get("config", {}).get("color_format", "").startswith("cff"):
             res["tags"].append("cff-outlines")
             c["inputs_with_cff_outlines"] = 1
